@@ -57,37 +57,47 @@ HEADER = r"""From Coq Require Import List ZArith Bool.
 Import ListNotations.
 From QV Require Import Model.C05 Proofs.C05.
 Open Scope Z_scope.
-Definition cfun (p : list GI) : coef G2 Z := @CFun G2 Z (cpoly p).
-Definition ccst (z : GI) : coef G2 Z := @CConst G2 Z z.
-Definition csum (a b : coef G2 Z) : coef G2 Z := CSum a b.
-Definition cmulc (a b : coef G2 Z) : coef G2 Z := CMul a b.
-Definition cconjc (a : coef G2 Z) : coef G2 Z := CConj a.
-Definition cnorm (a : coef G2 Z) : coef G2 Z := CNorm a.
-Definition xconst (q : M2) : qx G2 Z := @XConst G2 Z q.
-Definition xpair (q : M2) (c : coef G2 Z) : qx G2 Z := @XPair G2 Z q c.
-Definition xfunc (p : list M2) : qx G2 Z := @XFunc G2 Z (mpoly p).
-Definition xlist (l : list (M2 * option (coef G2 Z))) : qx G2 Z := @XList G2 Z l.
-Definition xaddq (a : qx G2 Z) (q : M2) : qx G2 Z := @XAddQ G2 Z a q.
-Definition xaddnum (a : qx G2 Z) (z : GI) : qx G2 Z := @XAddNum G2 Z a z.
-Definition xmulnum (a : qx G2 Z) (z : GI) : qx G2 Z := @XMulNum G2 Z a z.
-Definition xmatmulq (a : qx G2 Z) (q : M2) : qx G2 Z := @XMatmulQ G2 Z a q.
-Definition xrmatmulq (q : M2) (a : qx G2 Z) : qx G2 Z := @XRmatmulQ G2 Z q a.
+Definition cfun (p : list GI) : coef G2 ZT := @CFun G2 ZT (fun _ t => cpoly p t) None.
+Definition cfunw (p : list GI) (w : Z) : coef G2 ZT :=
+  @CFun G2 ZT (fun a t => gmul (gofZ (wdef a)) (cpoly p t)) (Some w).
+Definition cinter (g : list Z) (rows : list (list GI)) : coef G2 ZT :=
+  @CInter G2 ZT (@Build_inter G2 ZT g rows).
+Definition ccst (z : GI) : coef G2 ZT := @CConst G2 ZT z.
+Definition csum (a b : coef G2 ZT) : coef G2 ZT := CSum a b.
+Definition cmulc (a b : coef G2 ZT) : coef G2 ZT := CMul a b.
+Definition cconjc (a : coef G2 ZT) : coef G2 ZT := CConj a.
+Definition cnorm (a : coef G2 ZT) : coef G2 ZT := CNorm a.
+Definition xconst (q : M2) : qx G2 ZT := @XConst G2 ZT q.
+Definition xpair (q : M2) (c : coef G2 ZT) : qx G2 ZT := @XPair G2 ZT q c.
+Definition xfunc (p : list M2) : qx G2 ZT := @XFunc G2 ZT (fun _ t => mpoly p t) None.
+Definition xfuncw (p : list M2) (w : Z) : qx G2 ZT :=
+  @XFunc G2 ZT (fun a t => scale2 (gofZ (wdef a)) (mpoly p t)) (Some w).
+Definition xlist (l : list (M2 * option (coef G2 ZT))) : qx G2 ZT := @XList G2 ZT l.
+Definition xaddq (a : qx G2 ZT) (q : M2) : qx G2 ZT := @XAddQ G2 ZT a q.
+Definition xaddnum (a : qx G2 ZT) (z : GI) : qx G2 ZT := @XAddNum G2 ZT a z.
+Definition xmulnum (a : qx G2 ZT) (z : GI) : qx G2 ZT := @XMulNum G2 ZT a z.
+Definition xmatmulq (a : qx G2 ZT) (q : M2) : qx G2 ZT := @XMatmulQ G2 ZT a q.
+Definition xrmatmulq (q : M2) (a : qx G2 ZT) : qx G2 ZT := @XRmatmulQ G2 ZT q a.
+Definition xargs (a : qx G2 ZT) (w : Z) : qx G2 ZT := @XArgs G2 ZT a (Some w).
+Definition xarguments (a : qx G2 ZT) (w : Z) : qx G2 ZT := @XArguments G2 ZT a (Some w).
 Definition tto : tr G2 := @TTo G2.
 Definition tlmul (q : M2) : tr G2 := @TLmul G2 q.
 Definition trmul (q : M2) : tr G2 := @TRmul G2 q.
 Definition flatg (g : GI) : list Z := [fst g; snd g].
 Definition flat2 (m : M2) : list Z :=
   flatg (e11 m) ++ flatg (e12 m) ++ flatg (e21 m) ++ flatg (e22 m).
-Definition obs (x : qx G2 Z) (t : Z) (s : M2) :=
-  let es := build G2 Z x in
-  (flat2 (qe_call G2 Z es t), flat2 (qe__call G2 Z es t),
-   option_map flat2 (qe_matmul_data G2 Z es t s),
-   flatg (qe_expect G2 Z es t s),
-   map (kind_of G2 Z) es,
-   flat2 (sem G2 Z x t)).
+Definition obs (x : qx G2 ZT) (t : Z) (s : M2) :=
+  let es := build G2 ZT x in
+  (flat2 (qe_call G2 ZT es t), flat2 (qe__call G2 ZT es t),
+   option_map flat2 (qe_matmul_data G2 ZT es t s),
+   flatg (qe_expect G2 ZT es t s),
+   map (kind_of G2 ZT) es,
+   flat2 (sem G2 ZT x t)).
+(* Coefficient.__add__ : value at t and class of the result *)
+Definition cobs (a b : coef G2 ZT) (t : Z) :=
+  (flatg (ceval G2 ZT (coef_add G2 ZT a b) t), ckind_of G2 ZT (coef_add G2 ZT a b),
+   flatg (gadd (ceval G2 ZT a t) (ceval G2 ZT b t))).
 """
-
-
 # --------------------------------------------------------------- leaf callables
 # module-level classes so that objects built from them can be pickled
 def _qobj(arr):
@@ -175,8 +185,23 @@ def g_mat(rng):
     return [g_gi(rng) for _ in range(4)]
 
 
+GRIDS = [[-2, 0, 1, 3], [-3, -1, 2], [0, 2, 4], [-4, -2, 0, 2, 4], [-1, 1], [-2, 0, 1, 4]]
+
+
+def g_ipoly(rng, grid=None, order=None):
+    """InterCoefficient.restore(tlist, poly): integer grid, Gaussian-integer
+    polynomial pieces of order 0-3 (no continuity required)"""
+    grid = grid or (rng.choice(GRIDS) if rng.random() < 0.8
+                    else sorted(rng.sample(range(-4, 5), rng.randint(2, 5))))
+    order = rng.randint(0, 3) if order is None else order
+    rows = [[g_gi(rng) for _ in grid] for _ in range(order + 1)]
+    return ["ipoly", list(grid), rows]
+
+
 def g_coef(rng, depth=2, allow_w=False):
     r = rng.random()
+    if r < 0.14:
+        return g_ipoly(rng)
     if depth <= 0 or r < 0.5:
         deg = rng.randint(0, 2)
         cs = [g_gi(rng) for _ in range(deg + 1)]
@@ -197,6 +222,7 @@ def g_coef(rng, depth=2, allow_w=False):
 
 
 def g_leaf(rng, ext):
+    ext = True            # function leaves with an argument `w` are part of the modelled core
     r = rng.random()
     if r < 0.2:
         return ["const", g_mat(rng)]
@@ -239,7 +265,7 @@ def g_tree(rng, depth, ext=False):
             z = rng.choice([[0, 1], [0, -1], [1, 1], [2, 0], [-1, 0], [1, -2]])
         return ["mulnum", a, z, rng.choice(["l", "r"])]
     if r < 0.42:
-        return ["mulcoef", a, g_coef(rng, 1, ext), rng.choice(["l", "r"])]
+        return ["mulcoef", a, g_coef(rng, 1, True), rng.choice(["l", "r"])]
     if r < 0.52:
         return ["matmul", a, g_tree(rng, depth - 2, ext)]
     if r < 0.58:
@@ -248,7 +274,7 @@ def g_tree(rng, depth, ext=False):
         return ["rmatmulq", g_mat(rng), a]
     if r < 0.84:
         return [rng.choice(["dag", "dag", "conj", "trans", "neg", "compress", "ctor"]), a]
-    if r < 0.92 or not ext:
+    if r < 0.90 or (r >= 0.95 and not ext):
         k = rng.random()
         if k < 0.4:
             f = ["to", rng.choice(["Dense", "CSR", "Dia"])]
@@ -257,13 +283,13 @@ def g_tree(rng, depth, ext=False):
         else:
             f = ["rmul", g_mat(rng)]
         return ["linmap", f, a]
-    k = rng.random()
-    if k < 0.25:
-        return ["copy", a]
-    if k < 0.5:
-        return ["pickle", a]
-    if k < 0.75:
+    if r < 0.95:
         return ["args", a, rng.randint(-2, 3), rng.choice(["call", "arguments", "ctor"])]
+    k = rng.random()
+    if k < 0.35:
+        return ["copy", a]
+    if k < 0.7:
+        return ["pickle", a]
     return ["div", a, rng.choice([[2, 0], [0, 1], [0, -1], [-1, 0], [4, 0], [0, 2]])]
 
 
@@ -314,7 +340,7 @@ def g_chain(rng, ext=False):
     return x
 
 
-EXT_OPS = {"copy", "pickle", "args", "div", "funcw", "funw", "arr"}
+EXT_OPS = {"copy", "pickle", "div", "arr"}
 
 
 def is_core(tree):
@@ -419,10 +445,27 @@ def same(got, want, x, t, coef=False, scale=1.0):
     return bool(np.max(np.abs(got - want)) <= 1e-12 * max(1.0, mag) * max(1.0, scale))
 
 
+def ipoly_np(c, t):
+    """InterCoefficient.restore(tlist, poly) evaluated independently of qutip"""
+    tl, rows = c[1], c[2]
+    last = [gi_c(v) for v in rows[-1]]
+    if t <= tl[0]:
+        return last[0]
+    if t >= tl[-1]:
+        return last[-1]
+    k = max(i for i in range(len(tl)) if tl[i] <= t)
+    out = 0j
+    for row in rows:
+        out = out * (t - tl[k]) + gi_c(row[k])
+    return out
+
+
 def coef_np(c, t, w=None):
     op = c[0]
     if op == "arr":
         return complex(arr_leaf(c)(t))
+    if op == "ipoly":
+        return ipoly_np(c, t)
     if op == "fun":
         return sum(gi_c(k) * (t ** i) for i, k in enumerate(c[1]))
     if op == "funw":
@@ -513,6 +556,10 @@ def cbound(c, T):
     op = c[0]
     if op == "arr":
         return max(abs(y[0]) + abs(y[1]) for y in c[1]) * (1 if c[3] <= 1 else 8)
+    if op == "ipoly":
+        span = max(1, c[1][-1] - c[1][0])
+        return sum(max(abs(v[0]) + abs(v[1]) for v in row) * span ** (len(c[2]) - 1 - i)
+                   for i, row in enumerate(c[2]))
     if op in ("fun", "funw"):
         b = sum((abs(k[0]) + abs(k[1])) * T ** i for i, k in enumerate(c[1]))
         return b * (3 if op == "funw" else 1)
@@ -575,6 +622,11 @@ def coef_impl(c):
     op = c[0]
     if op == "arr":
         return _arr_new(c)
+    if op == "ipoly":
+        from qutip.core.cy.coefficient import InterCoefficient
+        return InterCoefficient.restore(
+            np.array(c[1], dtype=float),
+            np.array([[gi_c(v) for v in row] for row in c[2]], dtype=complex))
     if op == "fun":
         return coefficient(CoefPoly(c[1]))
     if op == "funw":
@@ -665,14 +717,25 @@ def build_impl(x, root=True):
         return pickle.loads(pickle.dumps(build_impl(x[1], False)))
     if op == "args":
         a = build_impl(x[1], False)
+        probe = [np.asarray(a(tt).full()) for tt in (1.0, -2.0)]
         if x[3] == "arguments":
-            a = a.copy()
-            a.arguments(w=x[2])
-            return a
-        if x[3] == "ctor" or not root:
-            return QobjEvo(a, args={"w": x[2]})
-        return _ArgsCall(a, x[2])
+            b = a.copy()
+            b.arguments(w=x[2])
+        elif x[3] == "ctor" or not root:
+            b = QobjEvo(a, args={"w": x[2]})
+        else:
+            b = _ArgsCall(a, x[2])
+            b(1.0)
+        # the object the arguments were replaced on must be unchanged
+        for tt, v in zip((1.0, -2.0), probe):
+            if not np.array_equal(np.asarray(a(tt).full()), v):
+                raise OriginalChanged("operand of argument replacement changed its value")
+        return b
     raise ValueError(op)
+
+
+class OriginalChanged(Exception):
+    pass
 
 
 class _ArgsCall:
@@ -697,12 +760,18 @@ def elements_of(obj):
     return obj._getstate()["elements"]
 
 
+CKIND = {"FunctionCoefficient": "CKFun", "InterCoefficient": "CKInter",
+         "ConstantCoefficient": "CKConst", "SumCoefficient": "CKSum",
+         "MulCoefficient": "CKMul", "ConjCoefficient": "CKConj", "NormCoefficient": "CKNorm"}
+
+
 def kind_impl(e):
     n = type(e).__name__
     if n == "_ConstantElement":
         return "KConst"
     if n == "_EvoElement":
-        return "KEvo"
+        return ("KEvo", CKIND.get(type(e._coefficient).__name__,
+                                  "?" + type(e._coefficient).__name__))
     if n == "_FuncElement":
         return "KFunc"
     if n == "_MapElement":
@@ -773,6 +842,10 @@ def c_gi(z):
     return "(%d, %d)" % (z[0], z[1])
 
 
+def c_z(n):
+    return "(%d)" % n
+
+
 def c_mat(m):
     return "(mk2 %s %s %s %s)" % tuple(c_gi(e) for e in m)
 
@@ -781,10 +854,15 @@ def c_coef(c):
     op = c[0]
     if op == "fun":
         return "(cfun %s)" % vlib.clist(c[1], c_gi)
+    if op == "funw":
+        return "(cfunw %s %s)" % (vlib.clist(c[1], c_gi), c_z(c[2]))
+    if op == "ipoly":
+        return "(cinter %s %s)" % (vlib.clist(c[1], c_z),
+                                    vlib.clist(c[2], lambda r: vlib.clist(r, c_gi)))
     if op == "const":
         return "(ccst %s)" % c_gi(c[1])
-    if op == "sum":
-        return "(csum %s %s)" % (c_coef(c[1]), c_coef(c[2]))
+    if op == "sum":        # built with `+`: Coefficient.__add__ (add_inter for two sampled ones)
+        return "(coef_add G2 ZT %s %s)" % (c_coef(c[1]), c_coef(c[2]))
     if op == "mul":
         return "(cmulc %s %s)" % (c_coef(c[1]), c_coef(c[2]))
     if op == "conj":
@@ -802,6 +880,11 @@ def c_tree(x):
         return "(xpair %s %s)" % (c_mat(x[1]), c_coef(x[2]))
     if op == "func":
         return "(xfunc %s)" % vlib.clist(x[1], c_mat)
+    if op == "funcw":
+        return "(xfuncw %s %s)" % (vlib.clist(x[1], c_mat), c_z(x[2]))
+    if op == "args":
+        return "(%s %s %s)" % ("xarguments" if x[3] == "arguments" else "xargs",
+                               c_tree(x[1]), c_z(x[2]))
     if op == "list":
         return "(xlist %s)" % vlib.clist(
             x[1], lambda p: "(%s, %s)" % (c_mat(p[0]),
@@ -1381,6 +1464,49 @@ def systematic_cases(maxlen):
     return out
 
 
+def systematic_inter_args_cases(rng):
+    """sampled coefficients sharing an operator (fused / summed / multiplied) and
+    argument replacement over every leaf kind, at several times"""
+    M = [[0, 1], [1, 0], [2, 0], [0, -1]]
+    M2 = [[1, 0], [0, 2], [0, 0], [-1, 0]]
+    S = [[1, 0], [0, 0], [2, 0], [0, 1]]
+    out = []
+    for grid in ([-2, 0, 1, 3], [-1, 1], [-4, -2, 0, 2, 4]):
+        for order in (0, 1, 2, 3):
+            I1, I2 = g_ipoly(rng, grid, order), g_ipoly(rng, grid, order)
+            I3 = g_ipoly(rng, grid, (order + 1) % 4)
+            g4 = list(grid)
+            g4[0] -= 1
+            I4 = g_ipoly(rng, g4, order)
+            trees = [
+                ["list", [[M, I1], [M, I2], [M2, None]]],
+                ["list", [[M, I1], [M, I3]]],
+                ["list", [[M, I1], [M, I4], [M, I2]]],
+                ["compress", ["add", ["pair", M, I1], ["pair", M, I2]]],
+                ["ctor", ["add", ["add", ["pair", M, I1], ["const", M2]], ["pair", M, I2]]],
+                ["mulcoef", ["pair", M, I1], I2, "r"],
+                ["dag", ["matmul", ["pair", M, I1], ["pair", M2, ["sum", I2, I1]]]],
+                ["mulnum", ["list", [[M, ["conj", I1]], [M, I2], [M, I1]]], [0, 1], "l"],
+            ]
+            for x in trees:
+                for t in rng.sample([-3, -2, -1, 0, 1, 2, 3], 2):
+                    out.append({"tree": x, "t": t, "state": S, "corpus": "systematic-inter"})
+    F = ["funcw", [[[0, 0], [1, 0], [0, 0], [2, 0]], [[1, 0], [0, 0], [0, 1], [0, 0]]], 2]
+    G = ["func", [[[1, 0], [0, 0], [0, 0], [2, 0]], [[0, 0], [1, 0], [0, 0], [1, 0]]]]
+    P = ["pair", M, ["funw", [[1, 1], [0, 1]], 2]]
+    Q = ["pair", M2, ["mul", ["funw", [[1, 0], [1, 0]], 3], ["conj", ["fun", [[0, 1], [1, 0]]]]]]
+    bases = [F, ["matmul", F, P], ["dag", ["matmul", G, F]], ["list", [[M, P[2]], [M, Q[2]], [M2, None]]],
+             ["mulcoef", ["mulnum", F, [1, 1], "r"], Q[2], "l"], ["add", ["matmul", P, F], Q]]
+    for b in bases:
+        for mode in ("ctor", "arguments", "call"):
+            for x in (["args", b, 3, mode], ["args", ["args", b, 3, "ctor"], -2, mode],
+                      ["dag", ["args", ["mulnum", b, [0, 1], "l"], 0, mode]],
+                      ["matmul", ["args", b, -1, mode], G]):
+                out.append({"tree": x, "t": rng.choice([-2, -1, 1, 2, 3]), "state": S,
+                            "corpus": "systematic-args"})
+    return out
+
+
 def has_op(x, names):
     if isinstance(x, list):
         if x and isinstance(x[0], str) and x[0] in names:
@@ -1474,6 +1600,7 @@ def run(ctx):
     # systematic stream (seed independent): every chain of unary operations up to
     # length 2 (quick) / 3 (thorough) over four product bases
     cases += systematic_cases(2 if ctx.quick else 3)
+    cases += systematic_inter_args_cases(random.Random(ctx.seed + 505))
     ncorpus = len(cases)
     ncore = 260 if ctx.quick else 6000
     while len(cases) < ncorpus + ncore:
@@ -1553,7 +1680,62 @@ def run(ctx):
                                   + ("" if n else " (the oracle finds no property violation "
                                      "on this input)"),
                                   {"case": c, "diffs": diffs[:4]}, found_input=bool(n))
-    ctx.log("correspondence: %d cases, %d mismatches" % (len(core_cases), mism))
+    # Coefficient.__add__ (add_inter: fuse or SumCoefficient): value and class
+    ncadd = 120 if ctx.quick else 1500
+    cadd_cases = []
+    for k in range(ncadd):
+        r = rng.random()
+        if r < 0.6:
+            a = g_ipoly(rng)
+            rel = rng.random()
+            if rel < 0.4:        # same grid, same order: fused
+                b = g_ipoly(rng, grid=a[1], order=len(a[2]) - 1)
+            elif rel < 0.6:      # same grid, other order
+                b = g_ipoly(rng, grid=a[1], order=(len(a[2]) + rng.randint(0, 2)) % 4)
+            elif rel < 0.8:      # same length, one point moved
+                g2 = list(a[1])
+                g2[-1] += 1
+                b = g_ipoly(rng, grid=g2, order=len(a[2]) - 1)
+            else:
+                b = g_ipoly(rng)
+        else:
+            a, b = g_coef(rng, 1, True), g_coef(rng, 1, True)
+        cadd_cases.append((a, b, rng.randint(-5, 5)))
+    try:
+        cvals = vlib.coq_eval_values(
+            "cases_C05_cadd", HEADER,
+            ["cobs %s %s (%d)" % (c_coef(a), c_coef(b), t) for a, b, t in cadd_cases], chunk=300)
+    except RuntimeError as e:
+        cvals = None
+        ctx.violation("corr:C05:model-eval", "coqc-cadd", "model evaluation failed",
+                      {"log": str(e)[-2500:]}, found_input=False)
+    cm = 0
+    for (a, b, t), mv in zip(cadd_cases, cvals or []):
+        m_val, m_kind, m_sum = vlib.parse_coq_value(mv)
+        ctx.count_case(("cadd", json.dumps([a, b]), t), nontrivial=a[0] == "ipoly" == b[0])
+        ctx.cov["traces_validated_against_impl"] += 1
+        try:
+            obj = coef_impl(a) + coef_impl(b)
+            i_val = to_gi_list(np.array([obj(float(t))]))
+            i_kind = CKIND.get(type(obj).__name__, "?" + type(obj).__name__)
+        except Exception as e:
+            i_val, i_kind = "ERR:" + type(e).__name__, str(e)[:100]
+        want = to_gi_list(np.array([coef_np(a, float(t)) + coef_np(b, float(t))]))
+        if list(m_sum) != want:
+            ctx.violation("harness:oracle-vs-sem", "coef-oracle-differs-from-coq",
+                          "NumPy coefficient oracle and Coq ceval disagree (harness defect)",
+                          {"a": a, "b": b, "t": t}, found_input=False)
+        if i_val != list(m_val) or i_kind != m_kind:
+            cm += 1
+            if cm <= 3:
+                n = coef_case(ctx, ["sum", a, b], t)
+                ctx.violation("corr:C05:Coefficient.__add__", "model-differs",
+                              "model and implementation disagree on Coefficient.__add__: "
+                              "impl %r %s, model %r %s" % (i_val, i_kind, list(m_val), m_kind),
+                              {"kind": "coef", "coef": ["sum", a, b], "t": t},
+                              found_input=bool(n))
+    ctx.log("correspondence: %d trees (%d mismatches), %d coefficient sums (%d mismatches)"
+            % (len(core_cases), mism, len(cadd_cases), cm))
 
     # -- oracle on the same trees + extended trees + lifts + coefficients + malformed
     nor = 0
